@@ -363,6 +363,9 @@ def replay_session_traces(pid, tlog_path, findings, breaks, cov, rec, seed, mode
         for (idx, fl, ep), line, op in zip(meta, res, ops):
             stat["endpoint_runs"] += 1
             if line.startswith("ok"):
+                if stat["ok"] in (0, 7):
+                    add_sample(cov, dict(replay_of=f"session {idx} ({fl}), endpoint {ep}", verdict=line,
+                                         first_items=" ; ".join(op.split(" ", 1)[1].split(" ; ")[:60])))
                 stat["ok"] += 1
                 m = re.search(r"steps=(\d+)", line)
                 if m:
